@@ -61,6 +61,9 @@ type Profile struct {
 	// non-zero session expiry, i.e. never sessions that end at disconnect (avoids the recorded
 	// late-cleanup race of a superseded connection, which is decided by schedule-controlled probes)
 	TakeoverSafe bool
+	MPS          []uint32 // client Maximum Packet Size choices (0 = absent)
+	DiscExpiry   []uint32 // session expiry values carried by some normal v5 DISCONNECTs
+	DiscExpPct   int
 }
 
 func pickB(r *vk.Rand, xs []byte, def byte) byte {
@@ -165,6 +168,9 @@ func (p *Profile) Generate(r *vk.Rand) (*Config, []string, []Op) {
 				op.TAM = vk.Pick(r, p.TAM)
 			}
 			op.RPI0 = r.Chance(p.RPI0Pct)
+			if len(p.MPS) > 0 {
+				op.MPS = vk.Pick(r, p.MPS)
+			}
 		}
 		if r.Chance(p.WillPct) && len(p.WillTopics) > 0 && !p.NoWillSlots[slot] {
 			w := &Will{Topic: vk.Pick(r, p.WillTopics), QoS: minb(pickB(r, p.PubQoS, 0), cfg.MaxQoS), Retain: r.Chance(p.RetainPct) && cfg.RetainAvailable}
@@ -311,7 +317,11 @@ func (p *Profile) Generate(r *vk.Rand) (*Config, []string, []Op) {
 			if how == "will" && st.ver[slot] != 5 {
 				how = "drop"
 			}
-			ops = append(ops, Op{Kind: "disconnect", C: slot, How: how})
+			dop := Op{Kind: "disconnect", C: slot, How: how}
+			if how == "normal" && st.ver[slot] == 5 && len(p.DiscExpiry) > 0 && r.Chance(p.DiscExpPct) {
+				dop.Expiry, dop.ExpirySet = vk.Pick(r, p.DiscExpiry), true
+			}
+			ops = append(ops, dop)
 			st.connected[slot] = false
 		case "ping":
 			if !st.connected[slot] {
